@@ -37,6 +37,8 @@ CONSTANTS Pre,          \* samples 1..Pre exist before the match and are not owe
           MaxFaults,
           K,            \* rounds allowed for convergence
           MaxRounds,    \* bound on rounds per behaviour
+          MaxRematch,   \* how often the READER side may lose and re-create its proxy of the writer (lease expiry after lost
+                        \* SPDP announcements, then rediscovery) while the writer keeps its proxy of the reader
           GenK
 
 VARIABLES
@@ -50,10 +52,13 @@ VARIABLES
   mode,        \* "env" | "drainW" | "drain1" | "fire" | "drain2"
   faultsLeft, roundFaults, roundTraffic, clean, lastTraffic, rounds,
   devS3,
+  everGot,     \* sequence numbers the reader has ever received or been told are unavailable (what it received stays in
+               \* its cache across a re-match)
+  rematchLeft,
   acts, faults   \* trail for replay
 
 vars == <<wlast, wUns, wAck, wRep, wFr, wGap, hbc, ab, chg, asm, rhb, sac, wrQ, rwQ, seen, mode,
-          faultsLeft, roundFaults, roundTraffic, clean, lastTraffic, rounds, devS3, acts, faults>>
+          faultsLeft, roundFaults, roundTraffic, clean, lastTraffic, rounds, devS3, everGot, rematchLeft, acts, faults>>
 
 Lt(a, b) == a < b
 LMin(S) == CHOOSE x \in S : \A y \in S : x <= y
@@ -66,7 +71,7 @@ Init ==
   /\ wrQ = <<>> /\ rwQ = <<>> /\ seen = <<>>
   /\ mode = "env"
   /\ faultsLeft = MaxFaults /\ roundFaults = 0 /\ roundTraffic = 0 /\ clean = 0 /\ lastTraffic = 0 /\ rounds = 0
-  /\ devS3 = FALSE
+  /\ devS3 = FALSE /\ everGot = {} /\ rematchLeft = MaxRematch
   /\ acts = <<>> /\ faults = <<>>
 
 (* ------------------------------------------------------------ messages *)
@@ -92,7 +97,18 @@ Write ==
   /\ mode' = "drainW"
   /\ clean' = 0          \* new data: convergence is owed again
   /\ UNCHANGED <<wAck, wRep, wFr, wGap, ab, chg, asm, rhb, sac, rwQ, seen, faultsLeft, roundFaults, roundTraffic,
-                 lastTraffic, rounds, devS3, faults>>
+                 lastTraffic, rounds, devS3, everGot, rematchLeft, faults>>
+
+\* the reader side loses its proxy of the writer and re-creates it (Reader::remove_writer_proxy, then
+\* update_writer_proxy): reception state starts from scratch; the writer has noticed nothing
+Rematch ==
+  /\ mode = "env" /\ rematchLeft > 0 /\ wlast >= 1
+  /\ rematchLeft' = rematchLeft - 1
+  /\ ab' = 1 /\ chg' = {} /\ asm' = <<>> /\ rhb' = 0
+  /\ clean' = 0
+  /\ acts' = Append(acts, [a |-> "Rematch"])
+  /\ UNCHANGED <<wlast, wUns, wAck, wRep, wFr, wGap, hbc, sac, wrQ, rwQ, seen, mode, faultsLeft, roundFaults, roundTraffic,
+                 lastTraffic, rounds, devS3, everGot, faults>>
 
 RoundStart ==
   /\ mode = "env" /\ rounds < MaxRounds
@@ -103,7 +119,7 @@ RoundStart ==
   /\ roundFaults' = 0 /\ roundTraffic' = 0
   /\ acts' = Append(acts, [a |-> "Round"])
   /\ UNCHANGED <<wlast, wUns, wAck, wRep, wFr, wGap, ab, chg, asm, rhb, sac, rwQ, seen, faultsLeft, clean, lastTraffic,
-                 rounds, devS3, faults>>
+                 rounds, devS3, everGot, rematchLeft, faults>>
 
 (* --------------------------------------------------------- reader reacts *)
 \* process_received_data
@@ -183,10 +199,11 @@ Deliver(fate) ==
              THEN /\ wrQ' = Tail(wrQ)
                   /\ IF fate = "drop" THEN UNCHANGED <<ab, chg, asm, rhb, rwQ>>
                      ELSE ReaderGets(m)       \* a duplicate is idempotent for DATA / FRAG / HB (same count)
-                  /\ UNCHANGED <<wUns, wAck, wRep, devS3, wGap>>
+                  /\ everGot' = everGot \cup chg'
+                  /\ UNCHANGED <<wUns, wAck, wRep, devS3, rematchLeft, wGap>>
              ELSE /\ rwQ' = Tail(rwQ)
                   /\ IF fate = "drop" THEN UNCHANGED <<wUns, wAck, wRep, devS3, wGap, wrQ>> ELSE WriterGets(m)
-                  /\ UNCHANGED <<ab, chg, asm, rhb>>
+                  /\ UNCHANGED <<ab, chg, asm, rhb, everGot, rematchLeft>>
   /\ UNCHANGED <<wlast, wFr, hbc, sac, mode, clean, lastTraffic, rounds, acts>>
 
 \* queues drained: next phase
@@ -199,7 +216,7 @@ Drained ==
         /\ lastTraffic' = roundTraffic
         /\ rounds' = rounds + 1
   /\ UNCHANGED <<wlast, wUns, wAck, wRep, wFr, wGap, hbc, ab, chg, asm, rhb, sac, wrQ, rwQ, seen, faultsLeft,
-                 roundFaults, roundTraffic, devS3, acts, faults>>
+                 roundFaults, roundTraffic, devS3, everGot, rematchLeft, acts, faults>>
 
 (* ---------------------------------------------------------- repair timers *)
 \* one iteration of the driver's fire loop: SendRepairData (if repair_mode), then SendRepairFrags
@@ -221,16 +238,18 @@ Fire ==
              /\ wrQ' = wrQ \o q1 \o q2
              /\ UNCHANGED mode
   /\ UNCHANGED <<wlast, wAck, wGap, hbc, ab, chg, asm, rhb, sac, rwQ, seen, faultsLeft, roundFaults, roundTraffic, clean,
-                 lastTraffic, rounds, devS3, acts, faults>>
+                 lastTraffic, rounds, devS3, everGot, rematchLeft, acts, faults>>
 
 Next ==
-  \/ Write \/ RoundStart \/ Drained \/ Fire
+  \/ Write \/ RoundStart \/ Drained \/ Fire \/ Rematch
   \/ \E fate \in {"ok", "drop", "dup"} : Deliver(fate)
 
 Spec == Init /\ [][Next]_vars
 
 (* -------------------------------------------------------------- property *)
-Converged == ab = wlast + 1 /\ wAck = wlast + 1
+\* (after a re-match with a writer that has gone quiet the reader's new proxy knows nothing, but the reader still holds
+\* what it received: the property speaks of what the reader holds)
+Converged == wAck = wlast + 1 /\ (ab = wlast + 1 \/ (1..wlast) \subseteq everGot)
 Inv_Converge == (mode = "env" /\ clean >= K) => (Converged \/ devS3)
 Inv_Quiet    == (mode = "env" /\ clean >= K + 1) => (lastTraffic = 0 \/ devS3)
 \* the reader never believes a sample unavailable that the writer owes it
@@ -241,7 +260,7 @@ Inv_DevNeedsFragments == devS3 => FragSNs # {}
 Inv_ConvergeStrict == (mode = "env" /\ clean >= K) => Converged
 
 View == <<wlast, wUns, wAck, wRep, wFr, wGap, hbc, ab, chg, asm, rhb, wrQ, rwQ, seen, mode, faultsLeft, roundFaults,
-          roundTraffic, clean, lastTraffic, rounds, devS3>>
+          roundTraffic, clean, lastTraffic, rounds, devS3, everGot, rematchLeft>>
 
 GenEdge == (GenK > 0 /\ mode' = "env" /\ mode # "env" /\ RandomElement(1..GenK) = 1) =>
              PrintT("REPLAY " \o ToJson([hist |-> 0, frag |-> 64, pre |-> Pre, acts |-> acts', faults |-> faults', rounds_after |-> K + 2]))
